@@ -246,6 +246,9 @@ def explore(h, known=None, collect_validation=2, profile_root=None):
             res.obligations += 1
             res.ob_ids[ob.id] = res.ob_ids.get(ob.id, 0) + 1
             excl = []
+            if z3.is_true(z3.simplify(ob.term)):
+                res.discharged += 1  # holds syntactically on this path (concrete outcome on a decided path)
+                continue
             while True:
                 s2 = new_solver(h.timeout_ms)
                 s2.add(*pre)
